@@ -139,8 +139,8 @@ healthCheck.maxFailed = %d
 			c.Violation("health-probes-continue-after-stop", "%s was removed by a reload: %d further health probes reached its backend within 2.5 s", p.name, n-before[i])
 			return
 		}
-		if p != gone && n == before[i] {
-			c.Violation("health-probes-of-unchanged-entry-stopped", "%s was not touched by the reload but its backend saw no health probe for 2.5 s (interval 1 s)", p.name)
+		if p != gone && n == before[i] && !h.Eventually(15*time.Second, func() bool { return p.hb.nProbes() > before[i] }) {
+			c.Violation("health-probes-of-unchanged-entry-stopped", "%s was not touched by the reload but its backend saw no health probe for 17 s (interval 1 s)", p.name)
 			return
 		}
 	}
@@ -271,9 +271,22 @@ func gatingProxy(c *h.Case, cli *h.Client, name string, hb *hback, maxFailed int
 			downs = append(downs, probes[m.After].End)
 		}
 	}
-	var ats, cls []int64
+	// registrations: the instants at which the client started a registration (first one of the wrapper, or
+	// after a health recovery) come from the phase log; repetitions after a reply timeout and retries after
+	// a start error are legal extra NewProxy messages and are only counted. Closes are taken at the server.
+	var starts, ats, cls []int64
+	extra := 0
 	collect := func() {
-		ats, cls = nil, nil
+		starts, ats, cls, extra = nil, nil, nil, 0
+		for _, p := range phaseHistory(name) {
+			if p.To == "wait start" {
+				if p.From == "new" || p.From == "check failed" {
+					starts = append(starts, p.T)
+				} else {
+					extra++
+				}
+			}
+		}
 		for _, e := range regEvents(name) {
 			if e.Op == "NewProxy" {
 				ats = append(ats, e.T)
@@ -284,17 +297,25 @@ func gatingProxy(c *h.Case, cli *h.Client, name string, hb *hback, maxFailed int
 	}
 	h.Eventually(5*time.Second, func() bool { // frps sends close notifications asynchronously
 		collect()
-		return len(cls) >= len(downs) && len(ats) >= len(ups)
+		return len(cls) >= len(downs) && len(ats) >= len(starts)+extra
 	})
-	c.Ev("gating", "name", name, "maxFailed", maxFailed, "outcomes", sb.String(), "model_ups", len(ups), "model_downs", len(downs), "registrations", len(ats), "closes", len(cls))
-	// walk the server-side events in time order: the first one that has no cause in the probe history is reported
+	c.Ev("gating", "name", name, "maxFailed", maxFailed, "outcomes", sb.String(), "model_ups", len(ups), "model_downs", len(downs), "registrations_started", len(starts), "repeated", extra, "newproxy_at_server", len(ats), "closes", len(cls))
+	if len(ats) != len(starts)+extra {
+		fail("registration-messages-differ-from-client-transitions", "%s: the client recorded %d registration starts and %d repetitions, %d NewProxy messages reached the server", name, len(starts), extra, len(ats))
+		return
+	}
+	if len(ats) > 0 && len(ups) > 0 && ats[0] < ups[0] {
+		fail("registered-before-first-successful-probe", "%s: the first NewProxy reached the server %v before the first successful probe had returned (outcomes %s)", name, time.Duration(ups[0]-ats[0]), sb.String())
+		return
+	}
+	// walk starts and closes in time order: the first one that has no cause in the probe history is reported
 	ia, ic := 0, 0
-	for ia < len(ats) || ic < len(cls) {
-		if ic >= len(cls) || (ia < len(ats) && ats[ia] <= cls[ic]) {
-			j, t := ia, ats[ia]
+	for ia < len(starts) || ic < len(cls) {
+		if ic >= len(cls) || (ia < len(starts) && starts[ia] <= cls[ic]) {
+			j, t := ia, starts[ia]
 			ia++
 			if j >= len(ups) {
-				fail("registered-without-health-transition", "%s (maxFailed %d): outcomes %s give %d healthy transition(s), %d NewProxy messages reached the server", name, maxFailed, sb.String(), len(ups), len(ats))
+				fail("registered-without-health-transition", "%s (maxFailed %d): outcomes %s give %d healthy transition(s), the client started %d registrations", name, maxFailed, sb.String(), len(ups), len(starts))
 				return
 			}
 			if t < ups[j] {
@@ -302,7 +323,7 @@ func gatingProxy(c *h.Case, cli *h.Client, name string, hb *hback, maxFailed int
 				if j == 0 {
 					key = "registered-before-first-successful-probe"
 				}
-				fail(key, "%s: NewProxy number %d reached the server %v before the probe that made the proxy healthy (for the %d. time) had returned (outcomes %s)", name, j+1, time.Duration(ups[j]-t), j+1, sb.String())
+				fail(key, "%s: registration number %d was started %v before the probe that made the proxy healthy (for the %d. time) had returned (outcomes %s)", name, j+1, time.Duration(ups[j]-t), j+1, sb.String())
 				return
 			}
 			continue
@@ -319,8 +340,8 @@ func gatingProxy(c *h.Case, cli *h.Client, name string, hb *hback, maxFailed int
 		}
 	}
 	if !drift {
-		if len(ats) != len(ups) || len(cls) != len(downs) {
-			fail("registrations-differ-from-health-transitions", "%s (maxFailed %d): outcomes %s give %d healthy / %d unhealthy transitions, server saw %d registrations / %d closes", name, maxFailed, sb.String(), len(ups), len(downs), len(ats), len(cls))
+		if len(starts) != len(ups) || len(cls) != len(downs) {
+			fail("registrations-differ-from-health-transitions", "%s (maxFailed %d): outcomes %s give %d healthy / %d unhealthy transitions, the client started %d registrations, the server saw %d closes", name, maxFailed, sb.String(), len(ups), len(downs), len(starts), len(cls))
 			return
 		}
 	} else {
